@@ -48,7 +48,8 @@ def apply_monitors(x, ref, case: X.Case, monitors: t.Sequence[str], rid: int = 0
         elif m == 'cancel':
             out += M.m_cancel(x, rid)
         elif m == 'events':
-            out += M.m_events(x, ref, spec, rid, 2 if case.collab.get('two_managers') else 1)
+            out += M.m_events(x, ref, spec, rid, 2 if case.collab.get('two_managers') or case.collab.get('partial_first') else 1,
+                              partial_first=case.collab.get('partial_first') or ())
         elif m == 'saves':
             out += M.m_saves(x, ref, spec, rid)
         elif m == 'varies':
